@@ -433,10 +433,10 @@ main(int argc, char *argv[])
 		} else if (strcmp(arg, "-emit-qbe") == 0) {
 			last = COMPILE;
 		} else if (strcmp(arg, "-include") == 0 || strcmp(arg, "-idirafter") == 0 || strcmp(arg, "-isystem") == 0 || strcmp(arg, "-iquote") == 0) {
-			if (!--argc)
+			if (!*++argv)
 				usage(NULL);
 			arrayaddptr(&stages[PREPROCESS].cmd, arg);
-			arrayaddptr(&stages[PREPROCESS].cmd, *++argv);
+			arrayaddptr(&stages[PREPROCESS].cmd, *argv);
 		} else if (strcmp(arg, "-pipe") == 0) {
 			/* ignore */
 		} else if (strncmp(arg, "-std=", 5) == 0) {
@@ -487,10 +487,10 @@ main(int argc, char *argv[])
 				} else if (strcmp(arg, "-MD") == 0 || strcmp(arg, "-MMD") == 0) {
 					arrayaddptr(&stages[PREPROCESS].cmd, arg);
 				} else if (strcmp(arg, "-MT") == 0 || strcmp(arg, "-MF") == 0) {
-					if (!--argc)
+					if (!*++argv)
 						usage(NULL);
 					arrayaddptr(&stages[PREPROCESS].cmd, arg);
-					arrayaddptr(&stages[PREPROCESS].cmd, *++argv);
+					arrayaddptr(&stages[PREPROCESS].cmd, *argv);
 				} else {
 					usage(NULL);
 				}
